@@ -361,6 +361,42 @@ def gen_ex(rng, l, live, saved):
     return dict(k="ex", l=l, m="__truediv__", args=[{"$lat": rng.choice(same)}], form="op", wae=True, why="warning-as-error:division")
 
 
+COPIES = ["copy", "deepcopy", "pickle"]
+# file contents np.loadtxt reads as the same row (probed on HEAD; a UTF-8 byte-order mark is NOT among them: numpy
+# rejects it, so it is not generated)
+TEXT_FLAVOURS = ["crlf", "trailing-blank", "spaces-after-commas", "comment-line-non-ascii", "blank-lines",
+                 "no-final-newline", "tabs-around-commas", "trailing-comment"]
+
+
+def text_flavour(row, how) -> bytes:
+    toks = ["%.18e" % v for v in row]               # numpy's default format: every double survives it
+    t = ",".join(toks)
+    return {"crlf": t + "\r\n", "trailing-blank": t + "   \n", "spaces-after-commas": ", ".join(toks) + "\n",
+            "comment-line-non-ascii": "# Gitter \u2013 donn\u00e9es \u00e4\n" + t + "\n", "blank-lines": "\n" + t + "\n\n",
+            "no-final-newline": t, "tabs-around-commas": " ,\t".join(toks) + "\n",
+            "trailing-comment": t + "  # fin \u00e4\n"}[how].encode("utf-8")
+
+
+def make_copy(o, how):
+    import copy
+    import pickle
+    return {"copy": copy.copy, "deepcopy": copy.deepcopy, "pickle": lambda x: pickle.loads(pickle.dumps(x))}[how](o)
+
+
+def flavour(x, fl):
+    """the same number as another admissible Python / numpy scalar type"""
+    if fl == "np":
+        if isinstance(x, bool):
+            return x
+        if isinstance(x, int):
+            return np.int64(x) if -2 ** 62 < x < 2 ** 62 else x
+        if isinstance(x, float):
+            return np.float64(x)
+    if fl == "int" and isinstance(x, float) and x == x and abs(x) < 2 ** 53 and x == int(x) and (x != 0 or str(x)[0] != "-"):
+        return int(x)
+    return x
+
+
 def gen_scenario(rng, ncmd=(6, 22), maxn=6, wild=True):
     """abstract scenario: lattices + commands (operands are indices into the list of live objects)"""
     g0 = gen_geom(rng, maxn)
@@ -383,6 +419,7 @@ def gen_scenario(rng, ncmd=(6, 22), maxn=6, wild=True):
         else:
             grid = [gen_value(rng, wild) for _ in range(size)]
         lats.append(dict(ext=g["ext"], n=g["n"], nodes=g["nodes"], grid=grid, form=gen_form(rng, 9),
+                         copy=rng.choice([None, None, None] + COPIES),
                          nsig=rng.choice(["omitted", "omitted", "None-by-keyword", "None-positional"])))
     cmds = []
     live = [dict(n=l["n"], nodes=l["nodes"]) for l in lats]
@@ -391,7 +428,10 @@ def gen_scenario(rng, ncmd=(6, 22), maxn=6, wild=True):
         l = rng.randrange(len(live))
         L = live[l]
         k = rng.choice(["si", "sp", "sp", "sn", "rs", "gi", "gp", "gp", "gn", "co", "fc", "xi", "xi", "xn",
-                        "iv", "bo", "av", "sv", "ld", "nodept", "rz", "at", "ex", "ex"])
+                        "iv", "bo", "av", "sv", "ld", "nodept", "rz", "at", "ex", "ex", "cp", "cp"])
+        if k == "cp":        # the object is replaced by a copy of itself; nothing observable may change
+            cmds.append(dict(k="cp", l=l, how=rng.choice(COPIES)))
+            continue
         if k == "ex":
             cmds.append(gen_ex(rng, l, live, saved))
             continue
@@ -452,7 +492,8 @@ def gen_scenario(rng, ncmd=(6, 22), maxn=6, wild=True):
             name = names[-1] if rng.random() < 0.5 else rng.choice(names)     # the last target, or an earlier one
             mut = rng.random()
             cmds.append(dict(k=k, mut="drop-last" if mut < 0.12 else ("short" if mut < 0.18 else
-                                                                    ("extra" if mut < 0.24 else "none")),
+                                                                    ("extra" if mut < 0.24 else
+                                                                     ("none" if mut < 0.7 else "text:" + rng.choice(TEXT_FLAVOURS)))),
                              fn=dict(name=name, kind="path" if rng.random() < 0.25 else "str", rel=rng.random() < 0.25)))
             if mut >= 0.24:
                 live.append(dict(n=saved[name]["n"], nodes=saved[name]["nodes"]))
@@ -466,7 +507,12 @@ def gen_scenario(rng, ncmd=(6, 22), maxn=6, wild=True):
             c["mdef"] = rng.random() < 0.5          # leave `method` out when it is the documented default
         elif METHOD.get(c["k"]) in DOC:
             c["form"] = gen_form(rng, len(DOC[METHOD[c["k"]]]))
-    return dict(lats=lats, cmds=cmds, subdir=list(rng.choice(SUBDIRS)))
+        if c["k"] in ("si", "sp", "sn", "gi", "gp", "gn", "co", "fc", "iv", "rs"):
+            c["fl"] = rng.choice(["py", "py", "np", "int"])       # Python / numpy scalar flavour of the numbers
+        if c["k"] == "av":
+            c["unpack"] = rng.choice(["list", "tuple", "generator", "iter"])
+    env = dict(chdir=rng.random() < 0.2, printopts=rng.random() < 0.3, seterr=rng.random() < 0.3, rnd=rng.random() < 0.5)
+    return dict(lats=lats, cmds=cmds, subdir=list(rng.choice(SUBDIRS)), env=env)
 
 
 # ------------------------------------------------------------------ the real code
@@ -484,6 +530,8 @@ def _mk(lat):
         kw.update(n_sigma_x=None, n_sigma_y=None, n_sigma_z=None)
     L = Lattice3D(*args[:f], **kw)
     L.grid_[...] = np.array(lat["grid"], dtype=float).reshape(n[0], n[1], n[2])
+    if lat.get("copy"):
+        L = make_copy(L, lat["copy"])               # the object under test is a copy of the one that was built
     return L
 
 
@@ -520,11 +568,11 @@ class _cwd:
         os.chdir(self.old)
 
 
-def _target(sub, fn):
+def _target(sub, fn, bare=False):
     """(argument handed to save_to_csv / load_from_csv, absolute path of the file)"""
     import pathlib
     ap = os.path.join(sub, fn["name"])
-    arg = fn["name"] if fn.get("rel") else ap
+    arg = fn["name"] if (fn.get("rel") or bare) else ap
     return (pathlib.Path(arg) if fn.get("kind") == "path" else arg), ap
 
 
@@ -540,7 +588,7 @@ def observe(objs, sub):
     for name in sorted(os.listdir(sub)):
         fp = os.path.join(sub, name)
         files.append(name + ":" + (hashlib.sha1(open(fp, "rb").read()).hexdigest() if os.path.isfile(fp) else "dir"))
-    return out, files
+    return out, files, gstate()
 
 
 def _materialise(a, objs, sub, tmpdir):
@@ -591,20 +639,76 @@ def run_error_step(c, objs, sub, tmpdir):
     return "returned"
 
 
+def gstate():
+    """process-wide state no call of the class has any business changing"""
+    import hashlib
+    import random
+    st = np.random.get_state()
+    return dict(random=hash(random.getstate()), np_random=(hashlib.sha1(st[1].tobytes()).hexdigest(),) + tuple(st[2:]),
+                cwd=os.getcwd(), geterr=tuple(sorted(np.geterr().items())),
+                printoptions=repr(sorted(np.get_printoptions().items())))
+
+
 def run_real(scn, tmpdir, hook=None):
     """execute on the real class.  Returns (driver command strings, answers, dump strings, objects).
-    `hook(cmd, answer, objs, last_saved)` is called after every executed command."""
+    `hook(cmd, answer, objs, last_saved)` is called after every executed command.
+    `scn["env"]`: the whole run happens in another working directory (all file names then bare and relative), with
+    non-default numpy print options, with np.seterr(all="warn"), with advanced `random` / `np.random` states."""
+    import random
+    env = scn.get("env") or {}
+    sd = scn.get("subdir") or ["s", ""]
+    sub = tempfile.mkdtemp(prefix=sd[0] + "_", suffix=sd[1], dir=tmpdir)   # one fresh directory per run
+    keep = (os.getcwd(), np.geterr(), np.get_printoptions(), random.getstate(), np.random.get_state())
+    try:
+        if env.get("chdir"):
+            os.chdir(sub)
+        if env.get("printopts"):
+            np.set_printoptions(precision=3, threshold=5, suppress=True, linewidth=40)
+        if env.get("seterr"):
+            np.seterr(all="warn")
+        if env.get("rnd"):
+            random.seed(987654321)
+            [random.random() for _ in range(17)]
+            np.random.seed(1234567)
+            np.random.random(11)
+        return _run_real(scn, tmpdir, sub, hook)
+    finally:
+        os.chdir(keep[0])
+        np.seterr(**keep[1])
+        np.set_printoptions(**{k: v for k, v in keep[2].items() if k != "override_repr"})
+        random.setstate(keep[3])
+        np.random.set_state(keep[4])
+
+
+def _run_real(scn, tmpdir, sub, hook=None):
+    import contextlib
     from sparkx.Lattice3D import Lattice3D
     from scipy.interpolate import interpn
+    env = scn.get("env") or {}
     objs = [_mk(l) for l in scn["lats"]]
     dcmds, answers = [], []
     rows = {}             # target name -> the row of numbers np.loadtxt reads from the file save_to_csv wrote
     last_saved = None
-    sd = scn.get("subdir") or ["s", ""]
-    sub = tempfile.mkdtemp(prefix=sd[0] + "_", suffix=sd[1], dir=tmpdir)   # one fresh directory per run
     aborted = None
+    if hook is not None:                     # a lattice that starts its life as a copy: observably the built one?
+        for t, l in enumerate(scn["lats"]):
+            if l.get("copy"):
+                hook(dict(k="cp", l=t, how=l["copy"], initial=True, _changed=None), "copied", objs, last_saved)
     for c in scn["cmds"]:
         k = c["k"]
+        if k == "cp":
+            if c["l"] >= len(objs):
+                continue
+            before = observe(objs, sub)
+            try:
+                objs[c["l"]] = make_copy(objs[c["l"]], c["how"])
+                outcome = "copied"
+            except Exception as e:  # noqa: BLE001
+                outcome = "raised:" + type(e).__name__
+            c["_outcome"], c["_changed"] = outcome, (None if observe(objs, sub) == before else f"lattice #{c['l']}")
+            if hook is not None:
+                hook(c, outcome, objs, last_saved)
+            continue
         if k == "ex":
             if c["l"] >= len(objs):
                 continue
@@ -616,6 +720,7 @@ def run_real(scn, tmpdir, hook=None):
             if after != before:
                 which = [f"lattice #{t}" for t, (a, b) in enumerate(zip(before[0], after[0])) if a != b] + \
                     (["files " + str(sorted(set(after[1]) ^ set(before[1]))[:3])] if after[1] != before[1] else []) + \
+                    ([f"process state {[x for x in after[2] if after[2][x] != before[2][x]]}"] if after[2] != before[2] else []) + \
                     ([f"{len(after[0])} objects instead of {len(before[0])}"] if len(after[0]) != len(before[0]) else [])
                 c["_changed"] = ", ".join(which)
             if hook is not None:
@@ -635,24 +740,27 @@ def run_real(scn, tmpdir, hook=None):
                 continue
         elif c["l"] >= len(objs):
             continue
-        with warnings.catch_warnings(record=True) as w, np.errstate(all="ignore"):
+        g0 = gstate()
+        F = lambda xs_: [flavour(x_, c.get("fl", "py")) for x_ in xs_]      # noqa: E731
+        with warnings.catch_warnings(record=True) as w, \
+                (contextlib.nullcontext() if env.get("seterr") else np.errstate(all="ignore")):
             warnings.simplefilter("always")
             try:
                 if k == "si":
                     L = objs[c["l"]]
                     i, j, kk = c["i"]
                     dcmds.append(f"si,{c['l']},{i},{j},{kk},{fx(c['v'])}")
-                    call(L, "set_value_by_index", [i, j, kk, c["v"]], c.get("form"))
+                    call(L, "set_value_by_index", F([i, j, kk, c["v"]]), c.get("form"))
                     ans = "w1" if _warned(w) else "w0"
                 elif k in ("sp", "sn"):
                     L = objs[c["l"]]
                     x, y, z = c["p"]
                     dcmds.append(f"{k},{c['l']},{fx(x)},{fx(y)},{fx(z)},{fx(c['v'])}")
-                    call(L, METHOD[k], [x, y, z, c["v"]], c.get("form"))
+                    call(L, METHOD[k], F([x, y, z, c["v"]]), c.get("form"))
                     ans = "w1" if _warned(w) else "w0"
                 elif k == "rs":
                     dcmds.append(f"rs,{c['l']},{fx(c['f'])}")
-                    call(objs[c["l"]], "rescale", [c["f"]], c.get("form"))
+                    call(objs[c["l"]], "rescale", F([c["f"]]), c.get("form"))
                     ans = "-"
                 elif k == "rz":
                     dcmds.append(f"rz,{c['l']}")
@@ -667,23 +775,23 @@ def run_real(scn, tmpdir, hook=None):
                 elif k == "gi":
                     i, j, kk = c["i"]
                     dcmds.append(f"gi,{c['l']},{i},{j},{kk}")
-                    r = call(objs[c["l"]], "get_value_by_index", [i, j, kk], c.get("form"))
+                    r = call(objs[c["l"]], "get_value_by_index", F([i, j, kk]), c.get("form"))
                     ans = "none" if r is None else "v" + fx(r)
                 elif k in ("gp", "gn"):
                     L = objs[c["l"]]
                     x, y, z = c["p"]
                     dcmds.append(f"{k},{c['l']},{fx(x)},{fx(y)},{fx(z)}")
-                    r = call(L, METHOD[k], [x, y, z], c.get("form"))
+                    r = call(L, METHOD[k], F([x, y, z]), c.get("form"))
                     ans = "none" if r is None else "v" + fx(r)
                 elif k == "co":
                     i, j, kk = c["i"]
                     dcmds.append(f"co,{c['l']},{i},{j},{kk}")
-                    r = call(objs[c["l"]], "get_coordinates", [i, j, kk], c.get("form"))
+                    r = call(objs[c["l"]], "get_coordinates", F([i, j, kk]), c.get("form"))
                     ans = "c" + fxs(r)
                 elif k == "fc":
                     x, y, z = c["p"]
                     dcmds.append(f"fc,{c['l']},{fx(x)},{fx(y)},{fx(z)}")
-                    r = call(objs[c["l"]], "find_closest_indices", [x, y, z], c.get("form"))
+                    r = call(objs[c["l"]], "find_closest_indices", F([x, y, z]), c.get("form"))
                     ans = f"{int(r[0])};{int(r[1])};{int(r[2])};{1 if _warned(w) else 0}"
                 elif k in ("xi", "xn"):
                     L = objs[c["l"]]
@@ -703,7 +811,7 @@ def run_real(scn, tmpdir, hook=None):
                         sup = exc_name(e)
                     c["_sup"] = sup
                     dcmds.append(f"iv,{c['l']},{fx(x)},{fx(y)},{fx(z)},{sup}")
-                    a_ = [x, y, z] + ([] if (c.get("mdef") and c["m"] == "nearest") else [c["m"]])
+                    a_ = F([x, y, z]) + ([] if (c.get("mdef") and c["m"] == "nearest") else [c["m"]])
                     ans = "v" + fx(call(L, "interpolate_value", a_, c.get("form", 3)))
                 elif k == "bo":
                     A, B = objs[c["a"]], objs[c["b"]]
@@ -716,13 +824,16 @@ def run_real(scn, tmpdir, hook=None):
                     objs.append(R)
                 elif k == "av":
                     dcmds.append(f"av,{c['a']},{';'.join(str(b) for b in c['bs'])}")
-                    R = objs[c["a"]].average(*[objs[b] for b in c["bs"]])
+                    others = [objs[b] for b in c["bs"]]
+                    others = {"list": others, "tuple": tuple(others), "generator": (o_ for o_ in others),
+                              "iter": iter(others)}[c.get("unpack", "list")]
+                    R = objs[c["a"]].average(*others)
                     ans = f"new{len(objs)}"
                     objs.append(R)
                 elif k == "sv":
                     dcmds.append(f"sv,{c['l']}")
                     fn = c.get("fn", DEFAULT_FN)
-                    arg, ap = _target(sub, fn)
+                    arg, ap = _target(sub, fn, env.get("chdir"))
                     c["_reuse"] = fn["name"] in rows
                     rows.pop(fn["name"], None)
                     if fn.get("pre") == "garbage" and not os.path.exists(ap):
@@ -749,9 +860,13 @@ def run_real(scn, tmpdir, hook=None):
                         row = row + [1.0]
                     c["_row"] = [fx(v) for v in row]
                     dcmds.append("ld," + fxs(row))
-                    arg, ap = _target(sub, fn)          # the file save_to_csv wrote
+                    arg, ap = _target(sub, fn, env.get("chdir"))          # the file save_to_csv wrote
                     cwd = sub if fn.get("rel") else None
-                    if c["mut"] != "none":
+                    if c["mut"].startswith("text:"):
+                        arg, cwd = os.path.join(tmpdir, "m.csv"), None
+                        with open(arg, "wb") as fh:
+                            fh.write(text_flavour(row, c["mut"][5:]))
+                    elif c["mut"] != "none":
                         arg, cwd = os.path.join(tmpdir, "m.csv"), None
                         np.savetxt(arg, np.array(row).reshape(1, -1), delimiter=",")
                     with _cwd(cwd):
@@ -764,6 +879,8 @@ def run_real(scn, tmpdir, hook=None):
                 if isinstance(e, AssertionError):
                     raise
                 ans = exc_name(e)
+        g1 = gstate()
+        c["_env"] = [x for x in g1 if g1[x] != g0[x]] or None
         answers.append(ans)
         c["_ans"] = ans
         if hook is not None:
@@ -948,9 +1065,10 @@ def _expect(c, refs, nobj, state):
         return ("t" + fxs([float(v) for v in R.ext] + [float(v) for v in R.n] + R.flat()),
                 "csv:saved-file-read-back:" + cls, None)
     if k == "ld":
-        if c["mut"] == "none":
+        if c["mut"] == "none" or c["mut"].startswith("text:"):
             S, cls = state["snaps"][c.get("fn", DEFAULT_FN)["name"]]
-            return f"new{nobj}", "csv:roundtrip:" + cls, RefLat(S.ext, S.n, S.nodes, S.flat())
+            return (f"new{nobj}", ("csv:roundtrip:" + cls) if c["mut"] == "none" else "csv:roundtrip-" + c["mut"],
+                    RefLat(S.ext, S.n, S.nodes, S.flat()))
         return "err:value", "csv:damaged-row-not-reported", None
     raise AssertionError(k)
 
@@ -1015,12 +1133,32 @@ def _oracle(scn, tmpdir):
     def hook(c, got, objs, last_saved):
         if found:
             return
+        if c["k"] == "cp":
+            shown = json.dumps({x: y for x, y in c.items() if not x.startswith("_")}, default=str)
+            if got.startswith("raised"):
+                found.append((f"copy:{c['how']}:raised", f"{shown}: {got}", dict(cmd=c)))
+            elif c.get("_changed"):
+                r = _objects_ok(objs, refs, c, f"copy:{c['how']}:observable-changed")
+                found.append((f"copy:{c['how']}:observable-changed",
+                              f"{shown}: the copy is not observably equal to the object it was made from"
+                              + (": " + r[1] if r else ""), dict(cmd=c)))
+            else:
+                r = _objects_ok(objs, refs, c, f"copy:{c['how']}:observable-changed")
+                if r:
+                    found.append(r)
+            return
         if c["k"] == "ex":
             shown = json.dumps({x: y for x, y in c.items() if not x.startswith("_")}, default=str)
             if c.get("_changed") and got.startswith("raised"):
                 found.append((f"error-path:object-changed-by-failed-call:{c['m']}",
                               f"{shown}: the call failed ({got}) and left {c['_changed']} different from what it was "
                               f"before the call", dict(cmd=c, outcome=got, changed=c["_changed"])))
+            return
+        if c.get("_env"):
+            found.append((f"environment:global-state-changed:{'+'.join(c['_env'])}:{METHOD.get(c['k'], c['k'])}",
+                          f"{json.dumps({x: y for x, y in c.items() if not x.startswith('_')}, default=str)}: the call changed "
+                          f"process-wide state ({c['_env']}: random / np.random generator state, working directory, np.geterr, "
+                          f"print options)", dict(cmd=c)))
             return
         nobj = len(refs)
         exp, key, newref = _expect(c, refs, nobj, state)
@@ -1107,11 +1245,22 @@ def correspond(ctx):
                 "public call issued all-positional (documented order) / all-keyword / mixed, defaults omitted or explicit; "
                 "error-path steps between the valid calls (wrong type at first/middle/last argument, bad value after addressing, "
                 "non-lattice operand at any position, unreadable / unwritable file, warnings as errors) after which every live "
-                "object and saved file must be exactly as before and later valid calls are judged as usual; each run on the hand-written model AND on the functions "
+                "object and saved file must be exactly as before and later valid calls are judged as usual; any live object (initial, "
+                "operand, result) may be replaced by its copy.copy / copy.deepcopy / pickle round trip at any point and must stay "
+                "observably equal; numbers passed as Python float / int / numpy scalars; average(*list|tuple|generator|iter); "
+                "loaded files also as CRLF / trailing blanks / blanks and tabs around commas / non-ASCII comment lines / blank "
+                "lines / no final newline; some runs inside another working directory with bare relative file names, non-default "
+                "numpy print options, np.seterr(all=warn), advanced random / np.random states - which every call must leave as it "
+                "found them (cwd, geterr, print options, both generator states); each run on the hand-written model AND on the functions "
                 "generated from the current source; "
                 "points are nodes, node±1ulp, edges, midpoints, just outside, far outside, ±inf, NaN, inside. "
                 "non-trivial = scenario with at least one boundary-class point access AND one accepted write or operator; "
                 "distinct by canonical driver line")
+    ctx.assumptions.append("C17's public API has no list-typed parameter (average takes *lattices: the unpacking of a list, tuple, "
+                           "generator or iterator is Python's), so the iterator device only varies that unpacking; a UTF-8 byte-order "
+                           "mark in a CSV file is rejected by np.loadtxt on the clean code and is not generated; rescale under "
+                           "warnings-as-errors (numpy raises after the in-place product) and set_value_by_index(..., None) (numpy "
+                           "stores nan) are outside the statement and not generated")
     ctx.assumptions.append("np.linspace (strictly monotone, exact end points), np.searchsorted, np.argmin, np.savetxt/np.loadtxt "
                            "('%.18e' round trip), scipy interpn (exact at grid points) are parameters of the model; their "
                            "contracts are checked on every value the harness supplies")
@@ -1131,10 +1280,22 @@ def correspond(ctx):
         lines.append("g" + scn_line(scn, dcmds))           # the same scenario on the GENERATED functions
         meta.append((scn, dcmds, answers, dumps))
         contract["linspace"] += 3 * len(scn["lats"])
+        for k_, v_ in (scn.get("env") or {}).items():
+            if v_:
+                ctx.count("environment/" + k_)
+        for l_ in scn["lats"]:
+            if l_.get("copy"):
+                ctx.count("copy/initial-object/" + l_["copy"])
         # contracts of the text layer / interpn on the values actually supplied
         for c in scn["cmds"]:
             if c["k"] == "sv" and "_row" in c:
                 contract["csv_tokens"] += len(c["_row"])
+            if c["k"] == "cp" and "_outcome" in c:
+                ctx.count(f"copy/{c['how']}/{c['_outcome'].split(':')[0]}")
+            if c["k"] == "ld" and "_ans" in c and c["mut"].startswith("text:"):
+                ctx.count("csv-text/" + c["mut"][5:] + "/" + ("ok" if c["_ans"].startswith("new") else c["_ans"][:12]))
+            if c.get("fl") and "_ans" in c:
+                ctx.count("scalar-flavour/" + c["fl"])
             if c["k"] == "ex" and "_outcome" in c:
                 ctx.count(f"error-step/{c['m']}/{c['why'].split('@')[0].split(':')[0]}/{c['_outcome'].split(':')[0]}"
                           + ("+state-changed" if c.get("_changed") else ""))
@@ -1255,8 +1416,7 @@ def agree(out: str, want: str, dcmds) -> bool:
 
 
 def _strip(scn):
-    return dict(lats=scn["lats"], cmds=[{k: v for k, v in c.items() if not k.startswith("_")} for c in scn["cmds"]],
-                subdir=scn.get("subdir"))
+    return dict(scn, cmds=[{k: v for k, v in c.items() if not k.startswith("_")} for c in scn["cmds"]])
 
 
 def _first_diff(out, want, dcmds):
@@ -1286,12 +1446,12 @@ def _first_diff(out, want, dcmds):
 
 # ------------------------------------------------------------------ search on the real code
 def shrink(scn, key, tmpdir):
-    cur = dict(lats=scn["lats"], cmds=list(scn["cmds"]), subdir=scn.get("subdir"))
+    cur = dict(scn, cmds=list(scn["cmds"]))
     changed = True
     while changed and len(cur["cmds"]) > 1:
         changed = False
         for i in range(len(cur["cmds"]) - 1, -1, -1):
-            cand = dict(lats=cur["lats"], cmds=cur["cmds"][:i] + cur["cmds"][i + 1:], subdir=cur.get("subdir"))
+            cand = dict(cur, cmds=cur["cmds"][:i] + cur["cmds"][i + 1:])
             if any(c["k"] in ("bo", "av", "ld") for c in cur["cmds"][i:i + 1]):
                 continue            # removing a creating command would renumber the objects
             r = oracle(cand, tmpdir)
@@ -1303,14 +1463,20 @@ def shrink(scn, key, tmpdir):
         if len(cur["lats"]) == 1:
             break
         cmds = [dict(c, l=0) for c in cur["cmds"] if c.get("l") == t and c["k"] not in ("bo", "av", "ld")]
-        cand = dict(lats=[cur["lats"][t]], cmds=cmds, subdir=cur.get("subdir"))
+        cand = dict(cur, lats=[cur["lats"][t]], cmds=cmds)
         if cmds:
             r = oracle(cand, tmpdir)
             if r and r[0] == key:
                 cur = cand
                 break
+    # the default environment, uncopied lattices, if that still fails
+    for change in (lambda c_: dict(c_, env={}), lambda c_: dict(c_, lats=[dict(l, copy=None) for l in c_["lats"]])):
+        cand = change(cur)
+        r = oracle(cand, tmpdir)
+        if r and r[0] == key:
+            cur = cand
     # a zero grid if that still fails
-    cand = dict(lats=[dict(l, grid=[0.0] * len(l["grid"])) for l in cur["lats"]], cmds=cur["cmds"], subdir=cur.get("subdir"))
+    cand = dict(cur, lats=[dict(l, grid=[0.0] * len(l["grid"])) for l in cur["lats"]])
     r = oracle(cand, tmpdir)
     if r and r[0] == key:
         cur = cand
